@@ -145,6 +145,8 @@ func CSVDatabaseResolved returns (err)
   }
   loop 2 {
     invariant @book DBIs(nl)
+    // the recipes are exported in strictly increasing order of their names - whatever produced the key list (C13, C05)
+    invariant @recipes-sorted [C13 C05] StrictStr(elems(keys), len(keys)) && len(keys) == len(nl)
     invariant @inv r == at(pre2, r) && r.output != nil && since(pre2, BufStep(r.output)) && bufSticky[r.output] == at(pre2, bufSticky[r.output]) && bufSink[r.output] == out && nl == at(pre2, nl) && mapval(nl) == at(pre2, mapval(nl)) && (forall k string :: {nl[k]} k in nl ==> nl[k] != nil)
     invariant @keys forall p int :: {keys[p]} 0 <= p && p < len(keys) ==> keys[p] in nl
   }
